@@ -2,8 +2,11 @@
 # try_seed.sh <patch.diff> <ID>... : apply the patch to /repo, run the named quick checks, undo.
 P=$1; shift
 cd /repo && git status --short | grep -q . && { echo "/repo not clean"; exit 2; }
+# runs against a changed tree must not leave their evidence behind
+KEEP=$(mktemp -d /tmp/evidence.keep.XXXXXX); cp -a /verif/evidence/. "$KEEP"/
 git apply "$P" || { echo "patch does not apply"; exit 2; }
 for id in "$@"; do
   cd /verif && timeout 1500 ./check $id quick 2>&1 | grep -E "^C[0-9]+ quick|^VIOLATION|MACHINERY" | tail -3
 done
 cd /repo && git checkout -- . && git status --short
+rm -rf /verif/evidence; mkdir -p /verif/evidence; cp -a "$KEEP"/. /verif/evidence/; rm -rf "$KEEP"
